@@ -2,12 +2,17 @@ import LopdfModel.Model.Queries
 import LopdfModel.Model.Filters
 import LopdfModel.Model.Content
 import LopdfModel.Model.Text
+import LopdfModel.Model.CMap
+import LopdfModel.Model.CMapParse
 /-
   C13 — `Document::extract_text` (src/parser_aux.rs) as the composition of the models of the
   other properties: page lookup and fonts (C13, `Model/Queries.lean`), stream filters (C09,
   `Model/Filters.lean`, flate2 / weezl as the parameter `ext`), the content-stream parser (C14 /
   C04, `Model/Content.lean`) and the text loop with the font encodings (C16, `Model/Text.lean`).
-  ToUnicode CMaps stay outside (C15): C16's `Enc.cmap` makes the page an error.
+  and the ToUnicode CMap machinery (C15, `Model/CMap.lean`, `Model/CMapParse.lean`: parser,
+  `from_sections`, segmentation, UTF-16 decoding). Still outside: the two `UniGB-*` simple
+  encodings, which lopdf decodes with encoding_rs' BOM-sniffing `UTF_16BE.decode` (C16 reports
+  them as `err "out-of-model:encoding_rs"`).
 -/
 namespace Lopdf.Q13
 open Gen
@@ -15,20 +20,143 @@ open Gen
 /-- `Stream::decompressed_content` as the `decomp` argument of `getPageContent` -/
 def decompOf (ext : Ext) (d : Dict) (c : Bytes) : Outcome Bytes := decompressedContent ext ⟨d, c⟩
 
+/-! ### font encodings with the document at hand (`Dictionary::get_font_encoding`) -/
+
+/-- `Encoding`: a one-byte table / simple name (C16's `Enc`) or a parsed ToUnicode CMap (C15's `UMap`) -/
+inductive FontEnc where
+  | std (e : Enc)
+  | cmap (m : CMap.UMap)
+
+/-- `Encoding::UnicodeMapEncoding(cmap).bytes_to_string` -/
+def cmapDecode (m : CMap.UMap) (bs : Bytes) : Outcome UStr :=
+  (CMap.bytesToUnits m (bs.map UInt8.toNat)).map CMap.decodeUnits
+
+/-- `Document::decode_text` = `Encoding::bytes_to_string` -/
+def FontEnc.decode : FontEnc → Bytes → Outcome UStr
+  | .std e, bs => decodeText e bs
+  | .cmap m, bs => cmapDecode m bs
+
+/-- `get_encoding_from_to_unicode_cmap`: `stream.get_plain_content()?` (filters: C09) then
+`ToUnicodeCMap::parse` (grammar + `from_sections`: C15) -/
+def cmapOfStream (ext : Ext) (d : Dict) (c : Bytes) : Outcome FontEnc :=
+  match getPlainContent ext ⟨d, c⟩ with
+  | .err e => .err e
+  | .panic s => .panic s
+  | .ok text =>
+    match (CMap.parseCMap text).bind CMap.fromSections with
+    | some m => .ok (.cmap m)
+    | none => E
+
+/-- `Dictionary::get_font_encoding(doc)` with everything it can return -/
+def fontEnc (ext : Ext) (os : Objects) (font : Dict) : Outcome FontEnc :=
+  if !font.hasType K_Font then E else
+  match (font.get K_Encoding).bind Obj.asName with
+  | some n =>
+    match lookupName n FONT_ENCODINGS with
+    | some t => .ok (.std (.oneByte t))
+    | none =>
+      if FONT_TOUNICODE_NAMES.contains n then
+        match toUnicodeStream os font with
+        | some (d, c) => cmapOfStream ext d c
+        | none => E
+      else .ok (.std (.simple n))
+  | none =>
+    match toUnicodeStream os font with
+    | some (d, c) => cmapOfStream ext d c
+    | none => .ok (.std (.oneByte FONT_FALLBACK_ENCODING))
+
+/-- the encodings of the page's fonts; an `Err` of any font fails `extract_text` as a whole, a
+panic unwinds -/
+def fontEncs (ext : Ext) (os : Objects) : List (Bytes × Dict) → Outcome (List (Bytes × FontEnc))
+  | [] => .ok []
+  | (n, f) :: rest =>
+    match fontEnc ext os f, fontEncs ext os rest with
+    | .panic s, _ => .panic s
+    | _, .panic s => .panic s
+    | .err e, _ => .err e
+    | _, .err e => .err e
+    | .ok e, .ok es => .ok ((n, e) :: es)
+
+/-! ### the text loop of `extract_text_chunks_from_page` (as C16's `extractLoop`, over `FontEnc`) -/
+
+mutual
+/-- `collect_text` on one operand -/
+def collectObjF (e : FontEnc) (text : UStr) : Obj → Outcome UStr
+  | .str bs _ =>
+    match e.decode bs with
+    | .ok s => .ok (text ++ s)
+    | .err x => .err x
+    | .panic x => .panic x
+  | .arr items =>
+    match collectListF e text items with
+    | .ok t => .ok (t ++ [32])
+    | .err x => .err x
+    | .panic x => .panic x
+  | .int i => .ok (if i < -100 then text ++ [32] else text)
+  | _ => .ok text
+/-- `collect_text` -/
+def collectListF (e : FontEnc) (text : UStr) : List Obj → Outcome UStr
+  | [] => .ok text
+  | o :: os =>
+    match collectObjF e text o with
+    | .ok t => collectListF e t os
+    | .err x => .err x
+    | .panic x => .panic x
+end
+
+def lookupFontEnc (n : Bytes) : List (Bytes × FontEnc) → Option FontEnc
+  | [] => none
+  | (k, e) :: rest => if k = n then some e else lookupFontEnc n rest
+
+structure XStateF where
+  cur : Option FontEnc    -- `current_encoding`
+  done : UStr             -- chunks already pushed, concatenated
+  text : UStr             -- `current_text`
+
+/-- the operation loop, as seen through `extract_text` (which fails at the first error chunk) -/
+def extractLoopF (encs : List (Bytes × FontEnc)) : List (Bytes × List Obj) → XStateF → Outcome UStr
+  | [], st => .ok (st.done ++ st.text)
+  | (op, operands) :: rest, st =>
+    if op = OP_TF then
+      match operands with
+      | [] => .err "Syntax"
+      | f :: _ =>
+        match f.asName with
+        | none => .err "Type"
+        | some n => extractLoopF encs rest { cur := lookupFontEnc n encs, done := st.done ++ st.text, text := [] }
+    else if op = OP_TJ || op = OP_TJ_ARR then
+      match st.cur with
+      | none => extractLoopF encs rest st
+      | some e =>
+        match collectListF e st.text operands with
+        | .ok t => extractLoopF encs rest { st with text := t }
+        | .err x => .err x
+        | .panic x => .panic x
+    else if op = OP_ET then
+      extractLoopF encs rest { st with text := if st.text.getLast? = some 10 then st.text else st.text ++ [10] }
+    else extractLoopF encs rest st
+
 /-- `extract_text_chunks_from_page` as `extract_text` sees it (any error chunk fails the call) -/
 def extractPage (ext : Ext) (os : Objects) (pid : ObjId) : Outcome UStr :=
   match getPageFonts os pid with
   | .err e => .err e
   | .panic s => .panic s
   | .ok fonts =>
-    match getPageContent (decompOf ext) os pid with
-    | .err e => .err e
+    match fontEncs ext os fonts with
     | .panic s => .panic s
-    | .ok data =>
-      match decodeContent data with
+    | encs =>
+      match getPageContent (decompOf ext) os pid with
       | .err e => .err e
       | .panic s => .panic s
-      | .ok ops => extractText fonts (ops.map fun o => (o.operator, o.operands))
+      | .ok data =>
+        match decodeContent data with
+        | .err e => .err e
+        | .panic s => .panic s
+        | .ok ops =>
+          match encs with
+          | .ok encs => extractLoopF encs (ops.map fun o => (o.operator, o.operands)) { cur := none, done := [], text := [] }
+          | .err e => .err e
+          | .panic s => .panic s
 
 /-- `pages.get(&page_number)` on the `BTreeMap` `get_pages` returns (keys 1..n) -/
 def pageByNumber (pages : List ObjId) (n : Nat) : Option ObjId := if n = 0 then none else pages[n - 1]?
